@@ -620,7 +620,7 @@ theorem sim_mbin {vty : Var → Ty} {o : IntrinsicOp} {b : BinOp} {x y : VExpr} 
     (hx : VSimM W M env ρ x x' tx) (htx : VIr.typeOf W.sig vty vvty x = some tx)
     (hy : VSimM W M env ρ y y' ty) (hty : VIr.typeOf W.sig vty vvty y = some ty)
     (ht : VIr.typeOf W.sig vty vvty (.op o (.cons x (.cons y .nil))) = some t)
-    (hok : ∀ m, irOpSem o = .bin m → binSide m tx) :
+    (hok : ∀ m, irOpSem o = .bin m → binSide m tx) (hrem : irOpSem o = .bin .mod → tx.scalar ≠ .float) :
     VSimM W M env ρ (.op o (.cons x (.cons y .nil))) (.bin b x' y') t := by
   simp only [VIr.typeOf, htx, hty] at ht
   cases hm : irOpSem o with
@@ -635,10 +635,14 @@ theorem sim_mbin {vty : Var → Ty} {o : IntrinsicOp} {b : BinOp} {x y : VExpr} 
         cases hcmp : m.isCmp <;> simp [hcmp, VMsl.resTy] at ht ⊢ <;> exact ht.symm
       have hbt := binTy_self hside
       have hot := operand_tys hside
+      have hro : VMsl.remOK m tx tx = true := by
+        by_cases hmm : m = .mod
+        · subst hmm; have := hrem hm; simp [VMsl.remOK, this]
+        · cases m <;> simp at hmm <;> simp [VMsl.remOK]
       constructor
-      · simp [VMsl.typeOf, hsem, hm, hx.1, hy.1, hbt, hres]
+      · simp [VMsl.typeOf, hsem, hm, hx.1, hy.1, hbt, hres, hro]
       · intro σ
-        simp only [VMsl.eval, hsem, hm, hx.1, hy.1, hbt, hot, VMsl.operandR, convMVR_self, hx.2 σ, VIr.eval]
+        simp only [VMsl.eval, hsem, hm, hx.1, hy.1, hro, if_true, hbt, hot, VMsl.operandR, convMVR_self, hx.2 σ, VIr.eval]
         cases hvx : VIr.eval W ρ x σ with
         | none => rfl
         | some r =>
